@@ -29,15 +29,18 @@ for _p in (os.path.join(_HERE, "..", "builders"), os.path.join(_HERE, "..", ".."
     if os.path.abspath(_p) not in sys.path:
         sys.path.insert(0, os.path.abspath(_p))
 import c01_carriers as CC  # noqa: E402
+import c01_xmlgraph as XG  # noqa: E402
 import regex_inventory as RI  # noqa: E402
 
-GEN = ["Exceptions", "Wrappers", "Loops", "Regexes"]
+GEN = ["Exceptions", "Wrappers", "Loops", "Regexes", "C01Iter"]
 RULE = ("cases = (extractor x injected exception class x call index) fault injections + (input bytes x extractor) "
         "hostile-stream runs + CLI invocations; distinct = distinct (extractor, sha1(input)/fault) pairs; "
         "non-trivial = the extractor got past its first statement (fault index > 0 or input is a mutated real document); "
         "+ (inventoried regular expression x unbounded repeat x pump count x cut) strings at the pattern level and embedded in carrier "
         "documents (EPUB nav/NCX/OPF/chapter, RTF, HTML, MHTML, mbox) through the extractor; + CLI runs (all output modes, in-process and "
-        "as a real subprocess) on multi-result inputs whose failure surfaces after an earlier result (damaged later archive member / folder / message)")
+        "as a real subprocess) on multi-result inputs whose failure surfaces after an earlier result (damaged later archive member / folder / message); "
+        "+ (ZIP-container fixture x XML member x reference relation found in the member x rewiring) WELL-FORMED mutants: reference cycles of length 1/2/3/all "
+        "(entities bare or intact), dangling / duplicated / empty ids, OPC relationship cycles — through the extractor, and the hanging ones through read_file")
 ASSUMPTIONS = [
     "BaseException-only exceptions (KeyboardInterrupt, GeneratorExit, SystemExit) are out of scope",
     "the whitelist of total atoms in tools/gen/wrappers.py (names, constants, attribute reads, comparisons of those, logging calls, perf_counter, imports) does not raise",
@@ -616,9 +619,74 @@ def _cli_late_failures(ctx):
 
 
 
+# ----------------------------------------------------------------------------- well-formed hostile structure (reference graphs)
+def _xmlgraph_fixtures(fx):
+    from sharepoint2text.parsing import router
+    return [(n, d) for n, d in fx if d[:4] == b"PK\x03\x04" and len(d) <= 350_000 and corpus.file_type_of(n) in router._EXTRACTOR_REGISTRY
+            and "password" not in n]
+
+
+def _xmlgraph_build(fxd, spec):
+    if isinstance(spec, (bytes, bytearray)):
+        return bytes(spec)
+    if "inject" in spec:
+        return XG.zip_inject(fxd[spec["fixture"]], spec)
+    return XG.zip_mutant(fxd[spec["fixture"]], spec["member"], spec["id"], spec["ref"], spec["op"])
+
+
+def _xmlgraph_stream(ctx, fx, exhaustive=False, max_bad=1):
+    """every reference relation visible in the XML members of the container fixtures, rewired into cycles / dangling /
+    duplicate ids (harness/builders/c01_xmlgraph.py): the documents stay well-formed, so they reach the code that FOLLOWS references"""
+    import hashlib
+    from sharepoint2text.parsing import router
+    broken = []
+    zf = _xmlgraph_fixtures(fx)
+    fxd = dict(zf)
+    module_of = lambda n: router._EXTRACTOR_REGISTRY[corpus.file_type_of(n)][0]  # noqa: E731
+    if exhaustive:
+        # references the fixtures do not contain: XML names the extractor's CURRENT source mentions, injected as cyclic references
+        # between the entities of every id site — first the names used by the functions that contain a `while`, then every relation
+        # of every fixture, then the remaining names
+        plan = XG.inject_plan(zf, module_of, focus_only=True) + XG.plan(ctx.rng, zf, True, 12)
+        plan += [p for p in XG.inject_plan(zf, module_of) if p not in plan]
+    else:
+        plan = XG.plan(ctx.rng, zf, ctx.thorough, ctx.n(3, 12))
+    seen = set()
+    nbad = 0
+    for label, name, spec in plan:
+        data = _xmlgraph_build(fxd, spec)
+        if data is None:
+            ctx.count("xmlgraph/not-applicable")
+            continue
+        m, f = router._EXTRACTOR_REGISTRY[corpus.file_type_of(name)]
+        h = hashlib.sha1(data).hexdigest()
+        if (f, h) in seen:
+            continue
+        seen.add((f, h))
+        why = _check_bytes(m, f, data, CARRIER_LIMIT_S)
+        ctx.case(("xmlgraph", f, h))
+        ctx.count(f"xmlgraph/{label.split(']')[0].split('[')[1].split('+')[0]}/{name.rsplit('.', 1)[-1]}/{'bad' if why else 'ok-or-family'}")
+        if why:
+            nbad += 1
+            broken.append(Broken("correspondence", "c01.surface", f"{label}: {why} (model: impossible)",
+                                 case={"kind": "bytes", "extractor": [m, f], "label": label, "limit_s": CARRIER_LIMIT_S,
+                                       "data_b64": base64.b64encode(data).decode()}))
+            if nbad >= max_bad:
+                break
+    ctx.sample({"xmlgraph_mutants": len(seen), "example_labels": [p[0] for p in plan[:: max(1, len(plan) // 5)]][:6]})
+    return broken
+
+
 def correspondence(ctx):
     fx = corpus.fixtures()
     broken = []
+    broken += _xmlgraph_stream(ctx, fx)
+    if any("did not terminate" in b.detail for b in broken) and not ctx.thorough:
+        # a concrete hanging input is established: the remaining byte streams would sit through one time limit per further hang
+        broken += _fault_injection(ctx, fx)
+        broken += _attachments(ctx, fx)
+        ctx.notes.append("hostile-bytes / read_file / CLI / regex streams skipped in this run: the reference-graph stream already produced a hanging input")
+        return {"broken": broken, "violations": []}
     broken += _fault_injection(ctx, fx)
     broken += _attachments(ctx, fx)
     broken += _hostile_stream(ctx, fx)
@@ -702,6 +770,13 @@ def search(ctx, broken):
         out.append(Violation("cli:discipline", b.detail, b.case))
     if out:
         return out[:1]
+    # 2c. a termination obligation broke (new `while`, reference-chasing loop, growing for-loop, recursion): every reference relation of
+    #     every container fixture rewired into cycles, exhaustively
+    for b in _xmlgraph_stream(ctx, fx, exhaustive=True):
+        c = b.case
+        why = _check_bytes(*c["extractor"], base64.b64decode(c["data_b64"]), c.get("limit_s", LIMIT_S))
+        if why:
+            return [Violation(f"surface:{c['extractor'][1]}", why, c)]
     # 2. a theorem / skeleton obligation broke: hunt with fault injection (cheap, targeted at wrappers) and the hostile stream
     fam_excs, other_excs = _exc_instances()
     for ft, m, f in corpus.registry():
